@@ -5,6 +5,7 @@ CONSTANTS
   MaxBatchesPerRun = 2
   KeyIncludesConfig = FALSE
   AtomicWrite = TRUE
+  BatchKey <- IdKey
   TolerantLoad = TRUE
 SPECIFICATION Spec
 INVARIANT CacheTransparent
